@@ -260,6 +260,48 @@ CLAIMED.update({
                   "TLC-generated tree universe, validated by TLC trace checking"),
 })
 
+CLAIMED.update({
+    "C08": dict(category="model_checking",
+        text="TLC model-checks LanceCleanup.tla (versions referencing file tokens, tags, a write in progress, ageing, cleanup through a "
+             "handle pinned at any version with before_version x delete_unverified x error_if_tagged; the working-set / verified / "
+             "unverified rules of cleanup.rs transcribed) for RetainedReadable, OnlyPolicyManifests, NoInProgressFileDeleted, and "
+             "generates the histories; each is replayed on a real table (commits of four kinds, prepared-but-uncommitted appends, tags, "
+             "mtimes set 9 days back, cleanup through a stale handle) and after every cleanup every version is re-read and compared by "
+             "TLC with its recorded projection: versions the policy retains (latest, tagged, not older than the handle) must be "
+             "identical, removed ones must be policy-selected, a blocked cleanup must fail, a commit prepared before the cleanup must "
+             "still read back.",
+        design_ref="DESIGN.md 3.3, 5 (C08)",
+        note="sequential half only: interleavings of the cleaner's storage calls with a concurrent writer (and Restore racing the "
+             "cleaner) are not replayed; time-based policies and auto-cleanup not covered; branches / shallow clones are C09's finding",
+        technique="TLA+ cleanup model + TLC; history replay on real tables; TLC trace validation (Trace_LanceTable.JudgeCleanup)"),
+    "C14": dict(category="model_checking",
+        text="TLC model-checks SchemaEvo.tla (add column from expressions, rename, drop, re-add under a dropped name, interleaved "
+             "with append / delete / compaction) for FieldIdsUnique, NoFieldIdReuse, EvolutionPreservesOthers, RowsMatchSchema and "
+             "generates the histories; each is replayed on a real table and TLC judges every step on the recorded projection "
+             "(Trace_SchemaEvo.tla): other columns' values and the row order unchanged, the added column holds exactly the requested "
+             "values, a re-added name never shows the dropped data, field ids unique and never reused.",
+        design_ref="DESIGN.md 5 (C14)",
+        note="flat nullable int32 columns; SQL-expression variant of add_columns only (batch / UDF / key-join variants, casts and "
+             "nullability changes not covered)",
+        technique="TLA+ schema-evolution model + TLC; history replay; TLC trace validation"),
+    "C24": _table("IndexCoverageSound on the design model (fragment bitmap vs snapshot of indexed values, with the CreateIndex / Rewrite "
+                  "conflict rules transcribed) and, on the implementation, index creation through fresh and stale handles interleaved with "
+                  "update, upsert, delete, append and compaction followed by indexed and unindexed queries for every value and by "
+                  "optimize_indices: TLC judges the indexed rows and counts against Sql3VL (IndexedScanEqualsEval).", "DESIGN.md 5 (C24)"),
+    "C38": dict(category="model_checking",
+        text="Every TLC-generated table history is replayed three times -- without a session, through a shared Session with 1 KiB "
+             "caches (eviction) and with large caches -- with and without dropping and re-creating the table at the same location, and "
+             "judged by Trace_LanceTable (all table invariants, scan, take, time travel); a violation present only in a run through a "
+             "session is a CacheTransparent violation.",
+        design_ref="DESIGN.md 3.7, 5 (C38)",
+        note="several tables at nested locations sharing one session are not covered; known finding: per-version cache keys after "
+             "drop + re-create",
+        technique="differential replay of TLC-generated histories with TLC trace validation as the oracle"),
+    "C42": _table("CopyReadsSame: after every generated history (plus index creation and tags) the table directory is copied byte for "
+                  "byte, the original is moved away, and every version and every tag is re-read at the copy; TLC compares the full "
+                  "projections with the ones recorded at the original.", "DESIGN.md 5 (C42)"),
+})
+
 PENDING_REASON = "not yet bound to the implementation by a registered check in this snapshot (see DESIGN.md status table)"
 
 ALL = ["C%02d" % i for i in range(1, 44)]
